@@ -80,6 +80,9 @@ def cases(tier: str, seed: int) -> list[dict]:
         ("thermal", 1, "SEG3", ["param:array", "obs", "param:array", "obs", "algo", "param:array", "obs"]),
         ("elastic", 2, "QUAD8", ["algo:hyper", "obs", "param:thickness", "obs", "rho", "obs", "param:thickness", "obs", "param:ps", "obs"]),
         ("thermal", 2, "TRI3", ["algo", "obs", "param:thickness", "obs", "rho", "obs", "param:thickness", "obs"]),
+        ("elastic", 2, "QUAD4", ["obs", "save", "meshcopy", "obs", "save", "set_iter:first", "obs", "param:E", "obs", "meshcopy", "obs", "set_iter:first", "obs"]),
+        ("thermal", 2, "TRI3", ["obs", "save", "meshcopy", "obs", "save", "set_iter:first", "obs", "param:k", "obs"]),
+        ("elastic", 3, "TETRA4", ["obs", "save", "meshcopy", "obs", "save", "set_iter:first", "obs"]),
         ("phasefield", 2, "TRI3", ["obs", "param:E", "obs", "param:split", "obs", "param:E", "param:regu", "obs"]),
         ("inelastic", 2, "QUAD4", ["obs", "param:E", "obs", "param:v", "obs", "motion", "param:E", "obs"]),
     ]
@@ -531,6 +534,31 @@ def run_case(case: dict, ctx: Ctx) -> None:
         replay_bcs(live, cfg["bcs"])
         return "simu.mesh="
 
+    def op_mesh_copy():
+        """The mesh in use is copied (Mesh.copy), the copy is stretched through its coordinate setter and becomes the mesh of the
+        simulation: two mesh objects of one family, with different geometry, live in the history."""
+        with quiet():
+            m = live.mesh.copy()
+            fx = np.array([float(rng.uniform(1.5, 3.0)), float(rng.uniform(0.6, 0.9)), 1.0 if dim < 3 else float(rng.uniform(1.1, 1.4))])
+            m.coord = m.coord * fx
+        dirty[0] = False
+        i = max(cfg["meshes"]) + 1
+        cfg["meshes"][i] = gm.mesh_arrays(m)
+        cfg["imesh"] = i
+        live_meshes[i] = m
+        for n_, v_ in list(cfg["model"].items()):
+            if isinstance(v_, np.ndarray) and n_ in ("E", "k", "c"):
+                cfg["model"][n_] = float(v_.mean())
+                setattr(model, n_, cfg["model"][n_])
+        if np.ndim(cfg["rho"]):
+            cfg["rho"] = float(rng.uniform(0.5, 3))
+            live.rho = cfg["rho"]
+        live.mesh = m
+        cfg["bcs"], cfg["state"] = [], None
+        cfg["bcs"] = standard_bcs(rng, live, cfg)
+        replay_bcs(live, cfg["bcs"])
+        return "simu.mesh=mesh.copy()*stretch"
+
     def op_bcs():
         live.Bc_Init()
         cfg["bcs"] = standard_bcs(rng, live, cfg)
@@ -563,10 +591,10 @@ def run_case(case: dict, ctx: Ctx) -> None:
         saved.append((live.Niter - 1, (live._Get_u_n(pt), live._Get_v_n(pt), live._Get_a_n(pt)), cfg["imesh"], cfg["algo"][0]))
         return "Save_Iter"
 
-    def op_set_iter():
+    def op_set_iter(force=None):
         if not saved:
             return op_save()
-        it, st, im, algo_at_save = saved[int(rng.integers(len(saved)))]
+        it, st, im, algo_at_save = saved[0] if force == "first" else saved[int(rng.integers(len(saved)))]
         if np.ndim(cfg["rho"]) and im != cfg["imesh"]:
             cfg["rho"] = float(rng.uniform(0.5, 3))
             live.rho = cfg["rho"]
@@ -620,7 +648,7 @@ def run_case(case: dict, ctx: Ctx) -> None:
     if kind in LINEAR or kind.startswith("elastic"):
         menu = menu_common + [op_rho, op_algo, op_save, op_set_iter]
         if kind.startswith("elastic"):
-            menu += [op_damp, op_motion, lambda: op_coord("mesh"), op_mesh_replace]
+            menu += [op_damp, op_motion, lambda: op_coord("mesh"), op_mesh_replace, op_mesh_copy]
         if kind == "thermal":
             menu += [op_motion, lambda: op_coord("mesh"), op_mesh_replace]
         if kind == "weakforms":
@@ -638,7 +666,7 @@ def run_case(case: dict, ctx: Ctx) -> None:
                 observe("solve" if kind not in NONLINEAR else "nl")
                 script = list(case.get("script", []))
                 named = {"param": op_param, "algo": op_algo, "rho": op_rho, "motion": op_motion, "bcs": op_bcs, "save": op_save, "set_iter": op_set_iter,
-                         "mesh": op_mesh_replace, "coord": lambda: op_coord("mesh")}
+                         "mesh": op_mesh_replace, "coord": lambda: op_coord("mesh"), "meshcopy": op_mesh_copy}
                 for step in range(len(script) if script else case["nops"]):
                     if script:
                         tok = script[step]
